@@ -249,6 +249,10 @@ impl Directive {
                 #[cfg(feature = "verif-hooks")]
                 crate::verif_hooks::point("directive.device");
                 if let DirectiveOps::OpList(values) = opts {
+                    if values.len() > 1 {
+                        // one program is for one device
+                        bail!("wrong format for .device, expected one device name in {}", point,);
+                    }
                     if let Operand::E(Expr::Ident(value)) = &values[0] {
                         if let Some(device) = DEVICES.get(value.as_str()) {
                             if let Some(old_device) = context
